@@ -293,6 +293,15 @@ def main(mod, argv=None):
 
     proof = prove(mod, prop)
 
+    if tier == "thorough" and proof.get("build_ok") and getattr(mod, "LEAN_MODULES", []):
+        try:
+            ok, log, secs = leanrun.leanchecker(mod.LEAN_MODULES)
+            proof.setdefault("extra", {})["leanchecker"] = {"ok": ok, "seconds": round(secs, 1), "modules": mod.LEAN_MODULES}
+            if not ok:
+                proof["broken"].append({"what": "leanchecker rejected the compiled modules", "detail": log})
+        except Exception as e:       # a time-out of the re-checker is an infrastructure matter, not a verdict
+            proof.setdefault("extra", {})["leanchecker"] = {"ok": None, "error": str(e)[:300]}
+
     rng = Rng(seed).fork(prop, tier)
     descs = load_corpus(prop) + list(mod.gen_cases(tier, rng))
     results = run_cases(mod, descs, nproc=a.jobs or None)
